@@ -131,6 +131,8 @@ def oracle(ctx, case, io):
         hist = lambda: oracles.hist(case, k, res)
         if status >= 500:
             sig = "C15:5xx-session-ended-mid-body" if st["kind"] == "split" else "C15:5xx"
+            if any(len(x) > 255 for x in (st["impl"].get("path") or "").split("/")) and case["conf"].get("store") == "dir":
+                sig = "C15:5xx-name-too-long"      # (a name the grammar admits but the file system cannot hold: finding F59)
             ctx.violation("request answered %s while storage is healthy (%s %s)" % (status, st["impl"].get("method"), st["impl"].get("path")), hist(), sig)
         if status < 100 or status > 599:
             ctx.violation("invalid status %s" % status, hist(), "C15:status")
@@ -234,6 +236,35 @@ def make_cases(ctx, first):
             for r_ in w.repos:
                 for b_, _mt in w.manifests[r_][-5:]:
                     w.add(manifest_delete(r_, dg("sha256", b_)))
+        if i % 3 != 2:
+            # manifests whose descriptors carry digests that are not digests (no separator, no algorithm, no hex, empty, missing)
+            for r_ in w.repos:
+                for _ in range(2):
+                    bad_d = ctx.rng.choice(["", "nocolon", "sha256", ":abc", "sha256:", "sha256-" + "0" * 64, "0" * 64, "latest", "sha256:" + "0" * 63, None])
+                    dd = {"mediaType": MT_CFG, "size": 2}
+                    if bad_d is not None:
+                        dd["digest"] = bad_d
+                    good = desc(MT_CFG, b"{}")
+                    w.ensure_blob(r_, b"{}")
+                    shape = ctx.rng.randrange(3)
+                    if shape == 0:
+                        b_ = jdump({"schemaVersion": 2, "mediaType": MT_OCI_M, "config": dd, "layers": []})
+                        mt_ = MT_OCI_M
+                    elif shape == 1:
+                        b_ = jdump({"schemaVersion": 2, "mediaType": MT_OCI_M, "config": good, "layers": [dict(dd, mediaType=MT_LAYER)]})
+                        mt_ = MT_OCI_M
+                    else:
+                        b_ = jdump({"schemaVersion": 2, "mediaType": MT_OCI_I, "manifests": [dict(dd, mediaType=MT_OCI_M)]})
+                        mt_ = MT_OCI_I
+                    w.contents.add(b_)
+                    w.add(manifest_put(r_, ctx.rng.choice(["t1", dg("sha256", b_)]), b_, ctype=mt_))
+        if i % 8 == 1:
+            # a name the grammar admits and the file system cannot hold (a component longer than 255 bytes)
+            big = "a" * 256
+            # (the model has no file system: these are judged by the oracle only)
+            w.add(raw("POST", "/v2/%s/blobs/uploads/" % big, model=False))
+            w.add(raw("GET", "/v2/%s/tags/list" % big, model=False))
+            w.add(raw("PUT", "/v2/x/%s/manifests/t1" % big, headers={"Content-Type": [MT_OCI_I]}, body=b'{"schemaVersion":2,"mediaType":"%s","manifests":[]}' % MT_OCI_I.encode(), model=False))
         # a few sessions left open on purpose
         for _ in range(2):
             k = w.add(upload_post(w.repo()))
